@@ -99,7 +99,7 @@ func runC09(e *env) {
 	e.m.Extra = map[string]interface{}{"mismatch_means": "model",
 		"assumptions": []string{"tags contain no backslash escapes (reflect.StructTag unquoting is modelled for plain values only)",
 			"the class claimed: no key conflict between flattened embedded structs and no tag name on an embedded struct (encoding/json then nests or drops; see known findings)"}}
-	specs := corpusFields()
+	specs := append(corpusFields(), repoFixtures("repo-testsource-defs", "repo-testsource-other", "repo-sql-models")...)
 	n := 20
 	if e.thorough() {
 		n = 250
